@@ -13,6 +13,7 @@ All theorems are about the model (`TgModel/Ide/Handlers.lean`, `TgModel/Ide/PTre
 i.e. for every parse tree of the workspace.
 -/
 import TgModel.Lemmas.IdeSemTree
+import TgModel.Lemmas.IdeSemOrderTop
 
 namespace Tg.C18
 open Tg Tg.Ide Tg.Ide.Handlers
@@ -258,6 +259,70 @@ theorem iterSymbolsInFile_pushFileSymbol (sm : SymMap) (file : Nat) (s : SymbolI
       exact absurd hp (by simpa using hn x hx)
     rw [hnone]
     simp [Array.find?_push, hnone]
+
+/-! ## Source order -/
+
+theorem isOutlineSymbol_eq (s : SymbolId) : isOutlineSymbol s = isOutline s := by cases s <;> rfl
+
+theorem outlineOf_range (sm : SymMap) (s : SymbolId) (h : isOutline s = true) :
+    (outlineOf sm s).range = ((symbolDefineLoc sm s).start, (symbolDefineLoc sm s).stop) := by
+  cases s with
+  | record id =>
+    simp only [outlineOf, symbolDefineLoc]
+    exact (recordToDocumentSymbol_spec sm (sm.record id)).2.1
+  | defset id => rfl
+  | multiclass id => rfl
+  | _ => cases h
+
+/-- **(4), source order**: on a workspace built by `buildWorkspace` the document symbols of a file are
+listed in source order — the range (declaring identifier) of each ends before the range of the next
+one starts.  (Proved through the whole indexer: `outline_sorted`, with the tree-shape facts
+`buildWorkspace_shaped` for every parser output.) -/
+theorem document_symbols_source_order {vfs : List (String × String)} {rootPath : String}
+    {inc : Option String} {ws : Workspace} (hws : buildWorkspace vfs rootPath inc = .ok ws) (fileId : Nat)
+    (ds : List DocumentSymbol) (h : documentSymbolExec (Analysis.new ws) fileId = .ok (some ds)) :
+    (ds.map (·.range)).Pairwise fun a b => a.2 ≤ b.1 := by
+  cases hidx : Index.index ws with
+  | error e =>
+    have : (Analysis.new ws).index = .error e := hidx
+    unfold documentSymbolExec at h
+    simp only [bind, Except.bind, this] at h
+    cases h
+  | ok idx =>
+    have hidx' : (Analysis.new ws).index = .ok idx := hidx
+    rw [document_symbols_exact _ fileId idx hidx'] at h
+    simp only [Except.ok.injEq] at h
+    cases hit : idx.symbolMap.iterSymbolsInFile fileId with
+    | none => rw [hit] at h; cases h
+    | some syms =>
+      rw [hit] at h
+      simp only [Option.map_some, Option.some.injEq] at h
+      try subst h
+      have hs := outline_sorted hws idx hidx fileId
+      unfold SortedLocs olocs fileList at hs
+      rw [hit] at hs
+      simp only [Option.getD_some] at hs
+      rw [List.map_map, List.pairwise_map]
+      rw [List.pairwise_map] at hs
+      have hfilter : syms.toList.filter isOutlineSymbol = syms.toList.filter isOutline := by
+        congr 1 <;> first | rfl | (funext s; exact isOutlineSymbol_eq s)
+      rw [hfilter]
+      refine hs.imp_of_mem ?_
+      intro a b ha hb hab
+      simp only [Function.comp]
+      rw [outlineOf_range _ a (List.mem_filter.1 ha).2, outlineOf_range _ b (List.mem_filter.1 hb).2]
+      exact hab
+
+/-- **children are not always in source order** (witness): the children of a class follow its
+`IndexMap`s, and re-inserting an existing key keeps its *first* position — for
+`class A<int x, int y, int x>` the third declaration (id 2) is listed before the second (id 1).
+(The driver shows the same for the real run: the children of `A` come out as `x`@26, `y`@19; likewise
+for fields declared twice.)  Without duplicate names the order is the declaration order; that is not
+proved here. -/
+theorem children_not_source_order_witness :
+    indexMapInsert (indexMapInsert (indexMapInsert #[] "x" 0) "y" 1) "x" 2 = #[("x", 2), ("y", 1)] := by
+  decide +kernel
+
 
 /-! ## Non-vacuity -/
 
